@@ -143,3 +143,58 @@ func init() {
 		Outside: []string{"VLAN decapsulation and IPv6 extension-header chains (not in the documented table)", "getters of NDP/option views (C14 decodes RA options differentially)", "frames > 1536 bytes"},
 	})
 }
+
+func init() {
+	fl := func(maxLoop, wall int) Config {
+		return Config{MaxLoop: maxLoop, MaxWall: wall, Stubs: map[string]bool{"nofastlog": true}}
+	}
+	register(&Prop{
+		ID:        "C20",
+		Technique: "differential bounded symbolic execution of the fastlog appenders against reference renderers (RFC 5952, decimal, hex), buffer-bound obligations by SMT",
+		Jobs: func(tier string) []Job {
+			r := []string{"done"}
+			jobs := []Job{
+				{Pkg: "fastlog", Func: "VerifC20Bool", Cfg: fl(64, 300), Reach: r},
+				{Pkg: "fastlog", Func: "VerifC20Hex", Cfg: fl(64, 300), Reach: r},
+				{Pkg: "fastlog", Func: "VerifC20MACNil", Cfg: fl(64, 300), Reach: r},
+				{Pkg: "fastlog", Func: "VerifC20Uint", Args: []int64{8}, Cfg: fl(64, 300), Reach: r},
+				{Pkg: "fastlog", Func: "VerifC20Uint", Args: []int64{16}, Cfg: fl(64, 300), Reach: r},
+				{Pkg: "fastlog", Func: "VerifC20Uint", Args: []int64{32}, Cfg: fl(64, 300), Reach: r},
+				{Pkg: "fastlog", Func: "VerifC20String", Cfg: fl(64, 300), Reach: r},
+				{Pkg: "fastlog", Func: "VerifC20Msg", Cfg: fl(64, 300), Reach: r},
+				{Pkg: "fastlog", Func: "VerifC20Concat", Cfg: fl(64, 300), Reach: r},
+				{Pkg: "fastlog", Func: "VerifC20IP6Zero", Cfg: fl(64, 300), Reach: r},
+				{Pkg: "fastlog", Func: "VerifC20IP6Layout", SplitN: 256, Cfg: fl(64, 300)},
+				{Pkg: "fastlog", Func: "VerifC20NetipIP", Cfg: fl(64, 300), Reach: r},
+				{Pkg: "fastlog", Func: "VerifC20StringArray", Cfg: fl(64, 300), Reach: r},
+				{Pkg: "fastlog", Func: "VerifC20IPArray", Cfg: fl(64, 300), Reach: r},
+			}
+			for pos := int64(0); pos < 4; pos++ {
+				jobs = append(jobs, Job{Pkg: "fastlog", Func: "VerifC20IP4", Args: []int64{pos}, Cfg: fl(64, 600), Reach: r})
+			}
+			if tier == "thorough" {
+				jobs = append(jobs, Job{Pkg: "fastlog", Func: "VerifC20IP6Digits", Args: []int64{256}, SplitN: 256, Cfg: fl(64, 900)})
+				jobs = append(jobs, Job{Pkg: "fastlog", Func: "VerifC20ByteArray", Args: []int64{400}, Cfg: fl(700, 1500), Reach: r})
+			} else {
+				jobs = append(jobs, Job{Pkg: "fastlog", Func: "VerifC20IP6Digits", Args: []int64{16}, SplitN: 16, Cfg: fl(64, 600)})
+				jobs = append(jobs, Job{Pkg: "fastlog", Func: "VerifC20ByteArray", Args: []int64{48}, Cfg: fl(300, 600), Reach: r})
+			}
+			return jobs
+		},
+		Bounds: func(tier string) map[string]string {
+			b := map[string]string{
+				"scalar appenders": "Bool, Uint8Hex, Uint16Hex, Uint8/16/32 (all values), String/Bytes/Label (values 0..5 bytes, all contents), Msg, three-field concatenation; field names of 0, 1 and 4 arbitrary bytes; cursor at any position that leaves room; arbitrary old buffer contents",
+				"MAC":              "each of the 6 positions takes all 256 values (others fixed); all lengths != 6 up to 8 render nil",
+				"IPv6 (IPSlice)":   "all 256 zero/non-zero group layouts with constant non-zero groups; digit classes: one free group (all 65535 non-zero values) at every position for 16 layouts (quick) / all 256 layouts (thorough)",
+				"IPv4 (IPSlice)":   "each octet position takes all 256 values, 4-byte and IPv4-mapped 16-byte forms",
+				"array appenders":  "ByteArray: cursor in the last 48 (quick) / 400 (thorough) bytes of the buffer, length 0..4096; StringArray: <= 3 strings of 0/7/14 bytes, any cursor; IPArray: <= 2 IPv6 addresses, any cursor",
+			}
+			return b
+		},
+		Assumptions: []string{
+			"reference renderers are written in the harness (RFC 5952 text form, strconv-style decimal, lowercase hex); the RFC 5952 and decimal references are validated natively against net/netip and strconv on 200000 random addresses by ./check selftest",
+			"Line.IP delegates to netip.Addr.AppendTo: only cursor/bounds behaviour is decided, equality with the standard library is by construction; Int, Duration, Time, Sprintf, Stringer content not decided",
+		},
+		Outside: []string{"String()/FastLog() renderers of the protocol views and table entries", "Duration/Time/Sprintf/Stringer content", "IPv6 addresses with more than one non-constant group at a time"},
+	})
+}
